@@ -68,6 +68,8 @@ def variants():
                 if f.endswith(".diff"):
                     name = f"{pd}_{f[:-5]}"
                     for prop in sorted({pd} | set(alarms.get(name, []))):
+                        if prop in (alarms.get("_skip") or {}).get(name, []):
+                            continue   # documented in the alarms file (`_skip_why`)
                         vs.append({"name": f"{tag}-{name}", "kind": "must-stay-silent", "patch": os.path.join(rdir, pd, f), "prop": prop, "expect": []})
     sdir = os.path.join(VERIF, "seeded")
     for d in sorted(os.listdir(sdir)) if os.path.isdir(sdir) else []:
